@@ -1,5 +1,47 @@
-"""Concretisation of solver models into real hive objects and native replay (placeholder: filled in per layer)."""
+"""Native replay of refuted obligations against the real code in /repo (DESIGN 2.5).
+
+The verifier's counter-models are over symbolic states (finite-universe interpretations of ids and cells); they are
+not concretised field by field.  Instead a refuted obligation triggers a *native search for a failing input* driven by
+the obligation: (1) if the obligation is one that a recorded defect used to fail, that defect's demonstration script is
+run against the current tree; (2) otherwise the property's native oracle is run over seeded random scenarios built
+through the public API (findings/native_search.py).  A hit is a concrete failing input (script + seed) that anyone can
+re-run; no hit leaves the violation reported with `no-failing-input-found`."""
+from __future__ import annotations
+import os, re, json, subprocess
+
+ROOT = os.path.dirname(os.path.dirname(os.path.abspath(__file__)))
+PY = "/venv/bin/python"
+REPO = os.environ.get("HIVE_REPO", "/repo")
+
+
+def _run(cmd, timeout=600):
+    try:
+        p = subprocess.run(cmd, capture_output=True, text=True, timeout=timeout, cwd=REPO,
+                           env=dict(os.environ, PYTHONPATH=REPO))
+        return p.stdout[-3000:], p.returncode
+    except Exception as e:  # noqa
+        return repr(e), 0
 
 
 def try_native(pid, ob):
-    return None
+    findings = []
+    p = os.path.join(ROOT, "known_findings.json")
+    if os.path.exists(p):
+        findings = json.load(open(p)).get("findings", [])
+    # (1) a defect that used to fail this obligation
+    for f in findings:
+        if f.get("property") == pid and f.get("demo") and re.search(f["obligation"], ob["id"]):
+            script = os.path.join(ROOT, f["demo"])
+            out, rc = _run([PY, script])
+            if "REPRODUCED" in out:
+                return {"reproduced": True, "how": f"demonstration of {f['id']} re-run on the current tree", "command": f"cd /repo && {PY} {script}",
+                        "output": out[-1500:]}
+    # (2) property oracle over seeded random scenarios
+    seed = int(os.environ.get("VERIF_SEED", "0") or 0)
+    script = os.path.join(ROOT, "findings", "native_search.py")
+    out, rc = _run([PY, script, pid, str(seed), "200"])
+    if "REPRODUCED" in out:
+        return {"reproduced": True, "how": "native oracle over seeded random scenarios (public API)",
+                "command": f"cd /repo && {PY} {script} {pid} {seed} 200", "output": out[-1500:]}
+    return {"reproduced": False, "how": "no failing input found by the native search", "command": f"cd /repo && {PY} {script} {pid} {seed} 200",
+            "output": out[-600:]}
